@@ -736,6 +736,22 @@ class Sem:
             f = self._is_of_branches(vn, {a[0] for a in alts}, vframe, depth)
             if f is not None:
                 return f
+        if strip(v.node).get("k") == "Tup" and not v.proj and v.bind is None and alts and \
+                all(len(a) == len(strip(v.node)["es"]) and all(c in ("lit:True", "lit:False", "_") for c in a) for a in alts) and \
+                any(c != "_" for a in alts for c in a):
+            # `match (a < b, c > d) { (true, false) => .. }`: a tuple of conditions matched against boolean literals is the
+            # conjunction of those conditions
+            es = strip(v.node)["es"]
+            ors_ = []
+            for a in alts:
+                parts = []
+                for c, e_ in zip(a, es):
+                    if c == "_":
+                        continue
+                    f_ = self.formula(e_, v.frame, depth + 1)
+                    parts.append(f_ if c == "lit:True" else F_not(f_))
+                ors_.append(f_and(parts))
+            return f_or(ors_)
         if strip(v.node).get("k") == "Tup" and not v.proj and v.bind is None:
             comps = [Val(strip(x), v.frame) for x in strip(v.node)["es"]]
             # make alternatives as wide as the tuple
